@@ -150,7 +150,11 @@ def one_merge(rng, workdir: Path, rec, k):
         if with_ids:
             for fid, pos in ids.items():
                 rec.ev()
-                got = st.get_flight(fid)
+                try:
+                    got = st.get_flight(fid)
+                except Exception as e:  # noqa: BLE001
+                    raise Mismatch('id lookup on a merged store of identified inputs raised',
+                                   {'flight_id': fid, 'error': f'{type(e).__name__}: {e}', **case})
                 if got is None or trajgen.fingerprint(got) != trajgen.fingerprint(model[pos]):
                     raise Mismatch('merged id lookup wrong',
                                    {'flight_id': fid, 'position': pos, 'seams': seams,
